@@ -219,8 +219,36 @@ def _new_state() -> dict:
     }
 
 
+def _prelude():
+    """Before any valid query: compile a few thousand REJECTED strings on the very environments the valid
+    queries will use (the property holds for every valid string whatever was compiled before; a parser
+    that accumulates state on failed compiles would start refusing valid input)."""
+    import jsonpath_rfc9535 as jp
+
+    bad = list(qenum.designed_near_misses())
+    nested = ["$[?(" * k + "@.a" for k in range(1, 6)] + ["$[?((@.a) && (@.b)", "$[?(@.a == 1) && ((@.b)", "$[?!(@.a", "$[?(@.a))]", "$[?lg((@.a)]"]
+    envs = [jp.DEFAULT_ENV]
+    try:
+        envs.append(_run.probe_env())
+    except Exception:  # noqa: BLE001
+        pass
+    n = 0
+    for _ in range(60):
+        for q in bad + nested:
+            for env in envs:
+                try:
+                    env.compile(q)
+                except Exception:  # noqa: BLE001
+                    pass
+                n += 1
+    return n
+
+
 def _worker(chunk) -> dict:
     st = _new_state()
+    if not getattr(_worker, "_prelude_done", False):
+        _worker._prelude_done = True
+        st["evaluations"] += 0 * _prelude()
     for part, sk, vary in chunk:
         q = qenum.render(sk)
         v = _check(q, part, st)
